@@ -15,6 +15,12 @@ Tie (C)    : the extracted model (ocaml/eng_c04.ml) and the real library (harnes
              o line is compared.  Single children (CGNS_DELETE_CHILD arms) are exercised on the implementation only; those whose
              name the caller chooses (Mirror.user_named_singles over the regenerated child_names) get non-default names, are
              deleted by that name and created again under another one.
+Links      : the histories contain cg_link_write to nodes of the same file and of a SECOND file (written by the same harness,
+             written again with other payloads between the last cg_close and the fresh open) under every parent label of the
+             regenerated white list; a link child is an opaque leaf whose view is cg_is_link + cg_link_read (file, path), never
+             the data behind it; model: Mirror.link_new / op OLink (= cg_link_write + cg_close + cg_open),
+             C04_link_identity_survives; C04_compress_keeps_links evaluates the regenerated guard of recurse_nodes (cgns_io.c).
+             Node-context arrays are also rewritten in place (cg_array_general_write = OUpdate).
 Attributes : every entity whose writer re-creates it in a re-used slot (single children, units, multi-sibling positions; 118
              targets) is written, given every attribute the API accepts, overwritten, and compared -- session and fresh open --
              with the same entity created for the first time in a second file (harness `attach` / `full`); statically,
@@ -39,6 +45,9 @@ Findings   : what the tree does by design or cannot repair cheaply goes through 
                                                           slot still shows an attribute of the entity it replaced
                fresh-view-differs:<label>:<fields>        same phase: a freshly created entity reads differently in the session
                                                           and after a fresh open
+               link-invisible-until-reopen                cg_link_write updates the file only (documented in its source)
+               array-general-write-stale-cache            cg_array_general_write on an array loaded at cg_open leaves the loaded
+                                                          copy alone: cg_array_read answers the old values
              Whatever Mirror.shadowed / parents_without_block / unsound_kinds / bad_nrows flag on the regenerated tables
              (all empty now: C04_no_shadowed_arm, C04_every_position_has_a_block, C04_no_stale_id_rows) is replayed on the
              library and reported under delete-arm-shadowed:... / delete-no-dispatch-block:...; everything else -- any other
@@ -1307,13 +1316,19 @@ def run(ck):
         "hand transcription of the overwrite template, ADDRESS4MULTIPLE, CGNS_DELETE_SHIFT, cgi_array_general_write's in-place "
         "branch and the read-back order in coq/Mirror.v, validated by the correspondence below and pinned by the regenerated tables",
     ]
-    ck.assumptions = ["malloc never fails", "one process, one open file", "node names without '/' (family-tree paths are not used as names)",
+    ck.assumptions = ["malloc never fails", "one process, one open file (the second file of the links is written while the main file is closed)",
+                      "a link child is an opaque leaf: nothing is written through it, no link to a link, no dangling link; "
+                      "cg_link_write is followed by cg_close + cg_open (OLink)", "node names without '/' (family-tree paths are not used as names)",
                       "payload = what the harness can encode in the attributes of a kind and in a Descriptor_t child",
                       "the model treats one parent node at a time; nesting is composed by the engine (subtree dropped on overwrite/delete)"]
     ck.cov["rule"] = ("seeded modify-mode histories: (a) one focused history per (parent label, child label) sibling group of the catalogue "
                       "(create 3-5, overwrite first/last/any, delete first/last/any, creations of sibling kinds in between, reopen), "
-                      "(b) random whole-tree histories over all groups at every level; each on ADF and HDF5 with compress-on-close "
-                      "0 / 1 / -1; after EVERY operation the views of all kinds under the touched node and of every non-empty group are "
+                      "(b) random whole-tree histories over all groups at every level, (l) one history per parent label cg_link_write "
+                      "accepts with a link into a second file, a link inside the file, their deletion / overwrite and edits of the "
+                      "siblings around a cg_close + cg_open; links (p = 0.08 .. 0.15 per step) and in-place rewrites of node-context "
+                      "arrays (cg_array_general_write) also occur in (a) and (b); the second file is written again with other "
+                      "payloads before the fresh open; the view of a link is cg_is_link + cg_link_read; each on ADF and HDF5 with "
+                      "compress-on-close 0 / 1 / -1; after EVERY operation the views of all kinds under the touched node and of every non-empty group are "
                       "taken, around every cg_close + cg_open the views of every group. Lines compared with the extracted model; "
                       "oracles O1 (session vs fresh open), O2 (frame), O3 (Python ideal tree) on the implementation's output. "
                       "non-trivial = the history contains an overwrite or in-place rewrite of an existing sibling AND a delete; "
